@@ -18,6 +18,7 @@ pub mod c25;
 pub mod c26;
 pub mod c27;
 pub mod c28;
+pub mod c31;
 pub mod c36;
 
 pub fn run(ctx: &Ctx, id: &str) -> bool {
@@ -41,6 +42,7 @@ pub fn run(ctx: &Ctx, id: &str) -> bool {
         "C26" => c26::run(ctx),
         "C27" => c27::run(ctx),
         "C28" => c28::run(ctx),
+        "C31" => c31::run(ctx),
         "C36" => c36::run(ctx),
         _ => return false,
     }
